@@ -775,8 +775,10 @@ def judge_written(chk, viol, tag, precision, rural, written, model, first, n_rec
     return worst
 
 
-def simulate_and_check(chk, precision, month, day, nday, param=SGP_PARAM, epw=SGP_EPW, variant=None, stock=None):
-    """variant: header / leap-file variant of s1_util applied to the rural file; stock: key of STOCKS."""
+def simulate_and_check(chk, precision, month, day, nday, param=SGP_PARAM, epw=SGP_EPW, variant=None, stock=None,
+                       attrs=None):
+    """variant: header / leap-file variant of s1_util applied to the rural file; stock: key of STOCKS; attrs: legal
+    parameter values set on the model before generate() (list of (name, value))."""
     from uwg import UWG
     import uwg.psychrometrics as up
     psy, hum = up.psychrometrics, up.hum_from_rhum_temp
@@ -814,11 +816,15 @@ def simulate_and_check(chk, precision, month, day, nday, param=SGP_PARAM, epw=SG
         tag['epw_variant'] = variant
     if stock:
         tag['stock'] = stock
+    if attrs:
+        tag['attrs'] = [list(a) for a in attrs]
     model = None
     try:
         model = UWG.from_param_file(param_in, epw_path=epw_in, new_epw_dir=out_dir, new_epw_name='out.epw')
         model.month, model.day, model.nday = month, day, nday
         model.epw_precision = precision
+        for (k_, v_) in (attrs or ()):
+            setattr(model, k_, v_)
         if stock:
             apply_stock(model, stock)
         with contextlib.redirect_stdout(io.StringIO()):
@@ -826,7 +832,7 @@ def simulate_and_check(chk, precision, month, day, nday, param=SGP_PARAM, epw=SG
             model.simulate()
             model.write_epw()
     except Exception as e:
-        if variant or stock:
+        if variant or stock or attrs:
             # a legal rural file / a documented custom building must be simulated; the model's own fail-stop on
             # such a run is recorded, not decided here
             chk.notes.append('C09 run %s raised %s: %s' % (tag, type(e).__name__, str(e)[:100]))
@@ -853,6 +859,13 @@ def simulate_and_check(chk, precision, month, day, nday, param=SGP_PARAM, epw=SG
     n_rec = len(model.UCMData)
     first = model.simTime.timeInitial          # index into the file's rows (8 header rows)
     worst = judge_written(chk, viol, tag, precision, rural, written, model, first, n_rec)
+    if attrs:
+        # how slowly the canyon of this member was ventilated: residence time bldHeight / uExch of the hourly records
+        res = [model.UCM.bldHeight / u.uExch for u in model.UCMData if u is not None and getattr(u, 'uExch', 0) > 0]
+        chk.measurements.setdefault('exchange_regime_runs', []).append({
+            'attrs': [list(a) for a in attrs], 'start': [month, day], 'epw': os.path.basename(epw[-1]),
+            'hours with canyon residence time bldHeight/uExch > 3600 s': sum(1 for x in res if x > 3600.0),
+            'longest residence time [s]': max(res) if res else None})
     shutil.rmtree(out_dir, ignore_errors=True)
     return n_rec, bad, worst
 
@@ -974,6 +987,47 @@ def circumstance_runs(chk):
                mismatches=counts['bad'], branches=br3)
 
 
+# ------------------------------------------------------------------ round 6: canyon exchange regimes
+def exchange_regime_runs(chk):
+    """Legal but extreme combinations of the canyon exchange parameters (c_exch, bldheight, windmin, h_mix, c_circ) on
+    days with calm hours: the canyon is ventilated from very fast to slower than one weather step (residence time
+    bldHeight / (c_exch * ustar) far above 3600 s). The moisture oracle of every simulated window judges each hour."""
+    rnd = chk.rng
+    thorough = chk.tier == 'thorough'
+    fam = [
+        # (precision, month, day, param, epw, attrs)
+        (4, 1, 1, SGP_PARAM, SGP_EPW, [('c_exch', 0.01)]),                               # 10 m canyon, weak exchange
+        (4, 1, 1, SGP_PARAM, SGP_EPW, [('c_exch', 0.1), ('bldheight', 150), ('h_mix', 0.2)]),  # towers
+        (4, rnd.randint(1, 12), rnd.randint(1, 28), SGP_PARAM, SGP_EPW,
+         [('c_exch', rnd.choice([0.001, 0.003, 0.005])), ('windmin', rnd.choice([0.1, 0.5, 1.0])),
+          ('bldheight', rnd.choice([5, 10, 25]))]),
+        (2, 7, rnd.randint(1, 28), TORONTO_PARAM, OTHER_EPW[0],
+         [('c_exch', 0.004), ('windmin', 0.2), ('bldheight', rnd.choice([12, 18]))]),
+    ]
+    if thorough:
+        fam += [(4, rnd.randint(1, 12), rnd.randint(1, 27), SGP_PARAM, e,
+                 [('c_exch', rnd.choice([0.002, 0.01, 0.05, 0.1, 5.0])), ('windmin', rnd.choice([0.1, 1.0, 2.0])),
+                  ('bldheight', rnd.choice([4, 10, 60, 150])), ('c_circ', rnd.choice([0.8, 1.2, 2.0]))])
+                for e in [SGP_EPW] + OTHER_EPW for _ in range(2)]
+    tot = bad = 0
+    for (prec, month, day, prm, epw, attrs) in fam:
+        n, b, _w = simulate_and_check(chk, prec, month, day, 1 if not thorough else 2, prm, epw, None, None, attrs=attrs)
+        tot += n
+        bad += b
+    slow = sum(r['hours with canyon residence time bldHeight/uExch > 3600 s']
+               for r in chk.measurements.get('exchange_regime_runs', []))
+    chk.direct('simulation(canyon exchange regimes: extreme legal c_exch / bldheight / windmin)', tot, tot,
+               'real generate/simulate/write_epw with the exchange coefficient, the building height and the wind floor at '
+               'legal extremes (c_exch 0.001 .. 0.1 [thorough .. 5], bldheight 5 .. 150 m, windmin 0.1 .. 1 [2] m/s, h_mix, '
+               'c_circ; Singapore 1 Jan with its calm morning, random Singapore days, Toronto in July; thorough: all five '
+               'rural files, 2 days): canyons whose air residence time bldHeight / (c_exch * ustar) is far longer than one '
+               'weather step in calm hours (%d such hours in this run, see measurements.exchange_regime_runs) beside '
+               'quickly ventilated ones. Every hour judged like every simulated window: canHum bit-identical to staHum of '
+               'its row, recorded RH / Tdp = psychrometrics(canTemp, canHum, P), written dew point text, ratio * w_rural '
+               'inside the interval of the written RH / T, pressure column unchanged' % slow,
+               mismatches=bad, branches={'records': tot, 'runs': len(fam), 'slowly ventilated hours': slow})
+
+
 def run(chk):
     chk.proof(MODULE, THEOREMS)
     if chk.tier == 'thorough':
@@ -1061,6 +1115,7 @@ def run(chk):
                'bulb ramps through 0 C, written with 2-3 decimals'
                % (wtxt,),
                mismatches=totbad, branches={'records': tot, 'windows': len(windows)})
+    exchange_regime_runs(chk)
     circumstance_runs(chk)
     chk.assumptions.append(
         'C09: libm exp/log/pow are interpreted by Real.exp/Real.log/rpow in the theorems and by the '
@@ -1090,7 +1145,8 @@ def replay(chk, path):
         prm = next((q for q in (SGP_PARAM, TORONTO_PARAM) if q[-1] == case.get('param')), SGP_PARAM)
         epw = next((q for q in [SGP_EPW] + OTHER_EPW if q[-1] == case.get('epw')), SGP_EPW)
         simulate_and_check(chk, case['epw_precision'], case['month'], case['day'], case['nday'],
-                           prm, epw, case.get('epw_variant'), case.get('stock'))
+                           prm, epw, case.get('epw_variant'), case.get('stock'),
+                           attrs=[tuple(a) for a in case.get('attrs') or []] or None)
     elif isinstance(case, dict) and 'rural row cells' in case:
         # the families of the float-level row / written-cell oracles are re-explored (same generators)
         weather_rows_oracle(chk)
